@@ -9,6 +9,7 @@ mod c03;
 mod c10;
 mod c12;
 mod c13;
+mod c14;
 mod c15;
 mod c16;
 mod c18;
@@ -29,6 +30,7 @@ fn table(id: &str) -> Option<(GenFn, ExecFn)> {
         "C10" => Some((c10::gen, c10::exec)),
         "C12" => Some((c12::gen, c12::exec)),
         "C13" => Some((c13::gen, c13::exec)),
+        "C14" => Some((c14::gen, c14::exec)),
         "C15" => Some((c15::gen, c15::exec)),
         "C16" => Some((c16::gen, c16::exec)),
         "C18" => Some((c18::gen, c18::exec)),
